@@ -269,7 +269,10 @@ contract(A + "optimize", params=dict(task="Task", mode="opt[str]", workers="opt[
              ("caller-objects-untouched", "heap_unchanged(" + ", ".join("'self.%s'" % f_ for f_ in SELF_RUN_FIELDS) + ")"),
              ("caller-lists-untouched", "lists_unchanged_except(old(self._population))"),
          ],
-         raises_ensures={"ValueError": ["heap_unchanged(" + ", ".join("'self.%s'" % f_ for f_ in SELF_RUN_FIELDS) + ")"]},
+         raises_ensures={"ValueError": ["heap_unchanged(" + ", ".join("'self.%s'" % f_ for f_ in SELF_RUN_FIELDS) + ")",
+                                        # a rejected call leaves the instance usable: the object invariant that the next call
+                                        # requires (a positive worker count) survives the ValueError exit too (C06)
+                                        "self._workers >= 1"]},
          properties=["C01", "C02", "C03", "C04", "C06", "C07", "C08", "C09", "C10", "C15", "C18"])
 
 # ---- regrouping (C10): groups are copies of consecutive slices, plus the residual group of the last N mod g agents ----------------
